@@ -50,9 +50,9 @@ func (c19) Meta(env *kernel.Env) kernel.Meta {
 	}
 	return kernel.Meta{
 		Extra: map[string]any{"real_streams": len(realStreamNames(env)), "real_stream_declarations_outside_precondition": conflicts},
-		Rule: "a run = one declaration stream (IDs from a small collision-prone alphabet, content a function of the ID, random priorities, length 0-14, or a systematic sweep of all short streams) delivered once undisturbed and once per generated fault sequence (shuffle, adjacent swap, block reversal, rotation, duplication and compositions); distinct = distinct (stream, fault sequence) pairs; non-trivial = the stream has >= 2 distinct IDs and the delivered order differs from the supplied one or contains a duplicate",
-		Real: []string{"generator.WriteDeclarations (current tree)", "for one run in 16 the producer too: the declaration list a real generator (unions, sqlcrud, randdata, sql, typescript, dart) emits for a corpus program"},
-		Stub: []string{"producer of the other runs: synthetic declaration streams"},
+		Rule:  "a run = one declaration stream (IDs from a small collision-prone alphabet, content a function of the ID, random priorities, length 0-14, or a systematic sweep of all short streams) delivered once undisturbed and once per generated fault sequence (shuffle, adjacent swap, block reversal, rotation, duplication and compositions); distinct = distinct (stream, fault sequence) pairs; non-trivial = the stream has >= 2 distinct IDs and the delivered order differs from the supplied one or contains a duplicate",
+		Real:  []string{"generator.WriteDeclarations (current tree)", "for one run in 16 the producer too: the declaration list a real generator (unions, sqlcrud, randdata, sql, typescript, dart) emits for a corpus program"},
+		Stub:  []string{"producer of the other runs: synthetic declaration streams"},
 		Assumptions: []string{
 			"precondition of the property: equal IDs carry equal content (streams are built that way)",
 			"an ID supplied both with and without priority may be placed in either group, but the choice must not depend on delivery order",
